@@ -183,7 +183,7 @@ def queries_for_entries(entries, alphabet, rng, tier, cap):
 
 def gen_registry(rng):
     """A random well-formed registry text over a small alphabet."""
-    alphabet = rng.choice(['01', '012', '0123', '01AB', '0123456789'])
+    alphabet = rng.choice(['01', '012', '0123', '01AB', '0123456789', '01.+', '0:$', 'aZ_9*'])     # any character but - , and blanks
     step_indent = rng.choice((1, 1, 2, 4))
     lines = []
     keys = ['a', 'b', 'c', 'name', 'x-y', 'k_1']
